@@ -183,6 +183,10 @@ def real_of_fields(row):
             node = p._get_row_node(row)
             if act:
                 node.add_action(act)
+            # what `update_global_uuids` does with every node before rendering: group / flow references are
+            # recorded in the container's dictionary and later take the uuid found there (an entry without
+            # uuid gets an invented one)
+            node.record_global_uuids(cont.uuid_dict)
             rendered = [a.render() for a in node.actions]
         except Exception as e:  # noqa: BLE001
             return {"err": f"{type(e).__name__}: {e}"[:200]}
@@ -192,8 +196,9 @@ def real_of_fields(row):
     for r in rendered:
         c = canon_action(r)
         if c["type"] == "enter_flow":
-            # the sub-flow's uuid travels through the container (record_flow_uuid → assign_global_uuids)
-            c["uuid"] = cont.uuid_dict.flow_dict.get(c["name"]) or c["uuid"]
+            c["uuid"] = cont.uuid_dict.flow_dict.get(c["name"]) or None
+        for g in c.get("groups", []):
+            g["uuid"] = cont.uuid_dict.group_dict.get(g["name"]) or None
         out.append(c)
     return {"ok": out}
 
